@@ -137,7 +137,7 @@ func (f fstoreStream) ReadStream(ctx context.Context, from eventbus.Offset) iter
 // ---------------------------------------------------------------- histories
 
 type hop struct {
-	K  string `json:"k"` // pubA | pubB | sub | restart
+	K  string `json:"k"` // pubA | pubB | sub | restart | pubA2 (an A event published by another process: a bus over a second store opened on the same medium)
 	ID int    `json:"id,omitempty"`
 }
 
@@ -201,6 +201,9 @@ type world struct {
 	hookPub bool
 	hdlrPub bool
 	pubd    map[int]bool // follow-up events already published (by any run)
+	ob      *stores.Handle // the oracle's own store over the same medium: looking must not touch the store under test
+	hd2     *stores.Handle // the other process's store over the same medium
+	bus2    *eventbus.EventBus
 	med     *stores.Medium
 	hd      *stores.Handle
 	fs      *fstore
@@ -218,7 +221,7 @@ type world struct {
 func (w *world) bad(f string, a ...any) { w.out = append(w.out, fmt.Sprintf(f, a...)) }
 
 func (w *world) rawEvents() []*eventbus.StoredEvent {
-	evs, _, err := w.hd.Store.Read(bg, eventbus.OffsetOldest, 0)
+	evs, _, err := w.ob.Store.Read(bg, eventbus.OffsetOldest, 0)
 	if err != nil {
 		vrt.MachineryFault("raw read: %v", err)
 	}
@@ -227,12 +230,12 @@ func (w *world) rawEvents() []*eventbus.StoredEvent {
 		all := evs
 		cur := eventbus.Offset("")
 		for len(evs) > 0 {
-			_, next, _ := w.hd.Store.Read(bg, cur, 0)
+			_, next, _ := w.ob.Store.Read(bg, cur, 0)
 			if next == cur {
 				break
 			}
 			cur = next
-			evs, _, _ = w.hd.Store.Read(bg, cur, 0)
+			evs, _, _ = w.ob.Store.Read(bg, cur, 0)
 			all = append(all, evs...)
 		}
 		return all
@@ -252,7 +255,7 @@ func (w *world) pos(o eventbus.Offset, raw []*eventbus.StoredEvent) int {
 	}
 	// durable-streams: Append returns the offset after the event; positions are
 	// recovered by reading from it
-	rest, _, err := w.hd.Store.Read(bg, o, 0)
+	rest, _, err := w.ob.Store.Read(bg, o, 0)
 	if err == nil && len(rest) <= len(raw) && !strings.Contains(string(o), "/") {
 		return len(raw) - len(rest)
 	}
@@ -289,7 +292,7 @@ func (w *world) newBus() {
 func (w *world) observeSaved(step string) {
 	raw := w.rawEvents()
 	for i, id := range ids {
-		o, err := w.hd.Sub.LoadOffset(bg, id)
+		o, err := w.ob.Sub.LoadOffset(bg, id)
 		if err != nil {
 			vrt.MachineryFault("raw LoadOffset: %v", err)
 		}
@@ -340,7 +343,7 @@ func (w *world) subscribe(i int) {
 func (w *world) trackSaved() {
 	raw := w.rawEvents()
 	for i, id := range ids {
-		o, _ := w.hd.Sub.LoadOffset(bg, id)
+		o, _ := w.ob.Sub.LoadOffset(bg, id)
 		if p := w.pos(o, raw); p > w.maxSv[i] {
 			w.maxSv[i] = p
 		}
@@ -366,7 +369,12 @@ func runHistoryBody(c hcase) []string {
 		vrt.MachineryFault("%v", err)
 	}
 	defer hd.Close()
-	w := &world{med: med, hd: hd, timeout: c.Timeout, hookPub: c.HookPub, hdlrPub: c.HandlerPub, pubd: map[int]bool{}}
+	ob, err := med.Open()
+	if err != nil {
+		vrt.MachineryFault("%v", err)
+	}
+	defer ob.Close()
+	w := &world{med: med, hd: hd, ob: ob, timeout: c.Timeout, hookPub: c.HookPub, hdlrPub: c.HandlerPub, pubd: map[int]bool{}}
 	w.fs = &fstore{st: hd.Store, str: hd.Stream, sub: hd.Sub, at: c.At, kind: c.Fault}
 	w.newBus()
 	at := w.fs.at
@@ -386,6 +394,18 @@ func runHistoryBody(c hcase) []string {
 		case "pubB":
 			w.n++
 			eventbus.Publish(w.bus, B{N: w.n})
+		case "pubA2":
+			if w.hd2 == nil {
+				h2, err := med.Open()
+				if err != nil {
+					vrt.MachineryFault("second store over the same medium: %v", err)
+				}
+				w.hd2 = h2
+				defer h2.Close()
+				w.bus2 = eventbus.New(eventbus.WithStore(h2.Store))
+			}
+			w.n++
+			eventbus.Publish(w.bus2, A{N: w.n})
 		case "sub":
 			if w.subd[o.ID] {
 				continue // one live subscription per id and run
@@ -546,7 +566,7 @@ func opsOfBody(kind string, ops []hop) int {
 		vrt.MachineryFault("%v", err)
 	}
 	defer hd.Close()
-	w := &world{med: med, hd: hd}
+	w := &world{med: med, hd: hd, ob: hd}
 	w.fs = &fstore{st: hd.Store, str: hd.Stream, sub: hd.Sub}
 	w.newBus()
 	for _, o := range ops {
@@ -557,6 +577,18 @@ func opsOfBody(kind string, ops []hop) int {
 		case "pubB":
 			w.n++
 			eventbus.Publish(w.bus, B{N: w.n})
+		case "pubA2":
+			if w.hd2 == nil {
+				h2, err := med.Open()
+				if err != nil {
+					vrt.MachineryFault("second store over the same medium: %v", err)
+				}
+				w.hd2 = h2
+				defer h2.Close()
+				w.bus2 = eventbus.New(eventbus.WithStore(h2.Store))
+			}
+			w.n++
+			eventbus.Publish(w.bus2, A{N: w.n})
 		case "sub":
 			if !w.subd[o.ID] {
 				w.subscribe(o.ID)
@@ -930,6 +962,55 @@ func run(c *h.Check) {
 					c.Violate("history", sigOf(hc, m)+" (the handler publishes follow-up events)", hc.String()+"\n"+m, hc)
 				}
 			}
+		}
+		// another process writes to the same log through a store of its own (not on the
+		// durable-streams store: that its saved offsets cannot be resumed from is recorded)
+		if k != "durable" {
+			alpha2 := []hop{{K: "pubA"}, {K: "pubA2"}, {K: "sub", ID: 0}, {K: "restart"}}
+			var rec func(cur []hop)
+			rec = func(cur []hop) {
+				has2, hasSub := false, false
+				for _, o := range cur {
+					has2 = has2 || o.K == "pubA2"
+					hasSub = hasSub || o.K == "sub"
+				}
+				if has2 && hasSub && cur[len(cur)-1].K != "restart" {
+					idx++
+					if c.Mine(idx) {
+						hc := hcase{Kind: k, Ops: append([]hop{}, cur...)}
+						c.Count("evaluations", 1)
+						c.Count("nontrivial", 1)
+						for _, m := range runHistory(hc) {
+							c.Violate("history", sigOf(hc, m)+" (another writer on the same log)", hc.String()+"\n"+m, hc)
+						}
+					}
+				}
+				if len(cur) == 5 {
+					return
+				}
+				// the other process writes only while this one has no live subscription in its
+				// current run (a live subscription sees its own bus's publishes only; what the
+				// property promises is that the next SubscribeWithReplay delivers whatever is
+				// in the log by then)
+				live := false
+				for _, o := range cur {
+					if o.K == "restart" {
+						live = false
+					} else if o.K == "sub" {
+						live = true
+					}
+				}
+				for _, o := range alpha2 {
+					if o.K == "restart" && (len(cur) == 0 || cur[len(cur)-1].K == "restart") {
+						continue
+					}
+					if o.K == "pubA2" && live {
+						continue
+					}
+					rec(append(cur, o))
+				}
+			}
+			rec(nil)
 		}
 		// logs that cross the 9 -> 10 position boundary (offsets change length)
 		for _, pre := range []int{8, 9} {
